@@ -34,6 +34,10 @@ def make_agg(a, dtype=torch.float64):
     if k == "PCGrad":
         return A.PCGrad()
     if k == "GradDrop":
+        if a.get("f") == "square":
+            return A.GradDrop(f=_gd_square, leak=tv(a.get("leak")))
+        if a.get("f") == "smoothstep":
+            return A.GradDrop(f=_gd_smoothstep, leak=tv(a.get("leak")))
         return A.GradDrop(leak=tv(a.get("leak")))
     if k == "Random":
         return A.Random()
@@ -49,6 +53,27 @@ def make_agg(a, dtype=torch.float64):
     if k == "Raising":
         return RaisingAggregator(a.get("exc", "ValueError"))
     raise ValueError(k)
+
+
+def _gd_square(P):
+    return P * P
+
+
+def _gd_smoothstep(P):
+    return P * P * (3.0 - 2.0 * P)
+
+
+GD_F = {None: lambda p: p, "identity": lambda p: p, "square": lambda p: p * p, "smoothstep": lambda p: p * p * (3.0 - 2.0 * p)}
+
+
+def matrix_form(J, form):
+    """How the matrix is handed to the aggregator: contiguous, non-contiguous (transposed memory), or a
+    tensor that requires grad (aggregation inside a differentiable pipeline)."""
+    if form == "noncontig" and J.ndim == 2 and J.shape[0] > 1 and J.shape[1] > 1:
+        return J.t().contiguous().t()
+    if form == "requires_grad":
+        return J.clone().requires_grad_(True)
+    return J
 
 
 class RaisingAggregator(torch.nn.Module):
